@@ -148,6 +148,9 @@ static RNG: AtomicU64 = AtomicU64::new(0);
 static GETRANDOM_CALLS: AtomicU64 = AtomicU64::new(0);
 /// optional scheduling hook (set by the shuttle engine); called before every tracked call
 static YIELD_HOOK: AtomicUsize = AtomicUsize::new(0);
+/// called while a simulated blocking call (flock) has to wait: must tell the scheduler that
+/// the caller cannot make progress (a yield *request*, unlike the plain switch above)
+static SPIN_HOOK: AtomicUsize = AtomicUsize::new(0);
 
 thread_local! {
     static BYPASS: Cell<u32> = const { Cell::new(0) };
@@ -170,6 +173,20 @@ fn maybe_yield() {
     if p != 0 {
         let f: fn() = unsafe { std::mem::transmute::<usize, fn()>(p) };
         f();
+    }
+}
+
+pub fn set_spin_hook(f: Option<fn()>) {
+    SPIN_HOOK.store(f.map(|f| f as usize).unwrap_or(0), Ordering::SeqCst);
+}
+
+fn spin_wait() {
+    let p = SPIN_HOOK.load(Ordering::Relaxed);
+    if p != 0 {
+        let f: fn() = unsafe { std::mem::transmute::<usize, fn()>(p) };
+        f();
+    } else {
+        maybe_yield();
     }
 }
 
@@ -855,7 +872,7 @@ pub unsafe extern "C" fn flock(fd: c_int, op: c_int) -> c_int {
                     set_errno(libc::EDEADLK);
                     return -1;
                 }
-                maybe_yield();
+                spin_wait();
             }
         }
     }
@@ -880,4 +897,18 @@ pub unsafe extern "C" fn getrandom(buf: *mut c_void, len: size_t, flags: c_uint)
         chunk.copy_from_slice(&b[..chunk.len()]);
     }
     len as ssize_t
+}
+
+/// `Path::exists` / `metadata` go through statx: a scheduling point for tracked paths (C13's
+/// "exists -> create -> lock" window), otherwise untouched.
+#[no_mangle]
+pub unsafe extern "C" fn statx(dirfd: c_int, path: *const libc::c_char, flags: c_int, mask: c_uint, buf: *mut c_void) -> c_int {
+    if ACTIVE.load(Ordering::Relaxed) && !bypassed() && !path.is_null() && YIELD_HOOK.load(Ordering::Relaxed) != 0 {
+        let pb = cstr_bytes(path);
+        let is_tracked = with(|s| !s.prefix.is_empty() && pb.starts_with(&s.prefix));
+        if is_tracked {
+            maybe_yield();
+        }
+    }
+    libc::syscall(libc::SYS_statx, dirfd, path, flags, mask, buf) as c_int
 }
